@@ -1,14 +1,17 @@
 #!/bin/bash
-# confirm every finished agent mutation under /tmp/mut/<ID>/out/<x>/ that has not been confirmed yet
+# tools/seed_confirm_all.sh [mutdir] [suffix] — confirm every agent mutation under <mutdir>/<ID>/out/<x>/
+MUT="${1:-/tmp/mut}"; SUF="${2:-}"
 mkdir -p /tmp/confirm
-RES=/tmp/confirm/results.txt
+RES=/tmp/confirm/results$SUF.txt
 touch $RES
-for d in /tmp/mut/C*/out/*/; do
+for d in $MUT/C*/out/*/; do
     [ -f "$d/patch.diff" ] && [ -f "$d/demo.rs" ] && [ -f "$d/NOTES.md" ] || continue
-    prop=$(echo "$d" | sed -E 's#/tmp/mut/(C[0-9]+)/out/.*#\1#')
+    prop=$(echo "$d" | sed -E 's#.*/(C[0-9]+)/out/.*#\1#')
     x=$(basename "$d")
-    name="${prop}-${x}"
+    name="${prop}-${SUF}${x}"
     grep -q "name=$name " $RES && continue
-    /verif/tools/seed_confirm.sh "$d" "$prop" "$name" >> $RES 2>&1
+    extra=""
+    case "$name" in C14-2a|C14-2b) extra="C12";; C10-2b) extra="C19";; esac
+    /verif/tools/seed_confirm.sh "$d" "$prop" "$name" $extra >> $RES 2>&1
 done
 echo "ALLDONE $(date)" >> $RES
